@@ -88,12 +88,17 @@ class VerifDemoEstimate(object):
                          for g in groups)
 
 
+_demo_registered = False
+
+
 def register_demo_property_set():
     """Register the second property set (once per process)."""
     from pgradd import yaml_io
     from pgradd.GroupAdd.Library import GroupLibrary
-    if 'verifdemo' in GroupLibrary._property_set_estimator_types:
+    global _demo_registered
+    if _demo_registered:
         return False
+    _demo_registered = True
     yaml_io.register_class('VerifDemoProps',
                            yaml_io.parse(VerifDemoProps._yaml_schema),
                            VerifDemoProps)
@@ -294,31 +299,98 @@ def lib_digest(lib, with_scheme=True):
 
 
 def process_state_canon():
-    """Process-wide mutable state of pgradd (DESIGN section 1)."""
-    from pgradd.GroupAdd.Library import GroupLibrary
-    from pgradd.GroupAdd.Scheme import GroupAdditivityScheme
-    from pgradd.GroupAdd import DataDir
-    from pgradd.ThermoChem import ThermochemIncomplete
-    from pgradd.yaml_io import yaml_io as yio
-    from pgradd.Units.db import units_db
+    """Process-wide state of pgradd that an operation on one library has no
+    business changing: the registries behind the public registration calls
+    and the default arguments of the public constructors.  Read defensively
+    (a private name that is gone is 'n/a', not an error).  The units table
+    is deliberately not part of it: a correct memo of parsed units would
+    change it without changing any result; what the table *answers* is
+    checked by units_behaviour_problems() at the end of a history."""
+    def safe(fn):
+        try:
+            return fn()
+        except Exception as exc:
+            return 'n/a: %s' % type(exc).__name__
 
-    def q(v):
-        u = getattr(v, 'units', None)
-        exps = getattr(u, 'exps', None)
-        return [repr(getattr(v, 'value', v)),
-                [repr(float(x)) for x in exps] if exps is not None else None]
+    def defaults(path):
+        def get():
+            import importlib
+            mod, cls, meth = path
+            obj = getattr(importlib.import_module(mod), cls)
+            return repr(getattr(obj, meth).__defaults__)
+        return safe(get)
+
+    def data_dir():
+        from pgradd.GroupAdd import DataDir
+        return DataDir._data_dir_cached \
+            if DataDir._data_dir_cached is False else 'set'
+
+    def estimators():
+        from pgradd.GroupAdd.Library import GroupLibrary
+        return sorted(GroupLibrary._property_set_estimator_types)
+
+    def yaml_types():
+        from pgradd.GroupAdd.Library import GroupLibrary
+        return sorted(GroupLibrary._property_set_group_yaml_types.items())
+
+    def repo():
+        from pgradd.yaml_io import yaml_io as yio
+        return sorted(yio._repository._loaders)
     return {
-        'estimators': sorted(GroupLibrary._property_set_estimator_types),
-        'yaml_types': sorted(GroupLibrary._property_set_group_yaml_types.items()),
-        'repo': sorted(yio._repository._loaders),
-        'units': dict((k, q(v)) for k, v in units_db.db.items()),
-        'defaults': [repr(GroupAdditivityScheme.__init__.__defaults__),
-                     repr(GroupLibrary.__init__.__defaults__),
-                     repr(ThermochemIncomplete.__init__.__defaults__),
-                     repr(ThermochemIncomplete.yaml_format.__defaults__)],
-        'data_dir_cached': DataDir._data_dir_cached
-        if DataDir._data_dir_cached is False else 'set',
+        'estimators': safe(estimators),
+        'yaml_types': safe(yaml_types),
+        'repo': safe(repo),
+        'defaults': [
+            defaults(('pgradd.GroupAdd.Scheme', 'GroupAdditivityScheme',
+                      '__init__')),
+            defaults(('pgradd.GroupAdd.Library', 'GroupLibrary', '__init__')),
+            defaults(('pgradd.ThermoChem', 'ThermochemIncomplete',
+                      '__init__')),
+            defaults(('pgradd.ThermoChem', 'ThermochemIncomplete',
+                      'yaml_format'))],
+        'data_dir_cached': safe(data_dir),
     }
+
+
+def units_table_size():
+    try:
+        from pgradd.Units.db import units_db
+        return len(units_db.db)
+    except Exception:
+        return None
+
+
+_PREFIX = [('a', 1e-18), ('f', 1e-15), ('p', 1e-12), ('n', 1e-9), ('u', 1e-6),
+           ('m', 1e-3), ('c', 1e-2), ('d', 1e-1), ('da', 1e1), ('h', 1e2),
+           ('k', 1e3), ('M', 1e6), ('G', 1e9), ('T', 1e12)]
+
+
+def units_behaviour_problems(order=0):
+    """What the units table answers, through the public API and against
+    definitions only (a prefixed unit is the prefix times the unit, whatever
+    the process did before): list of [expression, got, expected]."""
+    from pgradd.Units import eval_quantity
+    bad = []
+    prefixes = _PREFIX if order == 0 else _PREFIX[::-1]
+    with redirect_stdout(io.StringIO()):
+        for base in ('J', 'cal', 'K', 'mol', 'eV'):
+            try:
+                one = eval_quantity('1 ' + base)
+            except Exception as exc:
+                bad.append([base, type(exc).__name__, 'a quantity'])
+                continue
+            for pre, fac in prefixes:
+                expr = '1 %s%s' % (pre, base)
+                try:
+                    q = eval_quantity(expr)
+                    ratio = float(q.value) / float(one.value)
+                    same_dim = q.units == one.units
+                except Exception as exc:
+                    bad.append([expr, type(exc).__name__, repr(fac)])
+                    continue
+                if not same_dim or abs(ratio - fac) > 1e-9 * fac:
+                    bad.append([expr, repr(ratio), repr(fac)])
+    return bad
 
 
 def process_digest():
